@@ -231,6 +231,10 @@ def main():
     ap.add_argument("--files", default=",".join(FILES))
     ap.add_argument("--out", default=None)
     ap.add_argument("--list", action="store_true")
+    ap.add_argument("--resume", action="store_true",
+                    help="skip mutants already recorded in the output file "
+                         "(records whose checks ended with a harness error "
+                         "are tried again)")
     ap.add_argument("--only", default=None,
                     help="re-run specific mutants: file:line:kind,...")
     args = ap.parse_args()
@@ -251,11 +255,20 @@ def main():
                   if f"{s['file']}:{s['line']}:{s['kind']}" in want]
     else:
         sample = rng.sample(allsites, min(args.n, len(allsites)))
-    i, k = map(int, args.shard.split("/"))
-    sample = sample[i::k]
     out = args.out or os.path.join(HERE, "seeded", "mutsweep",
                                    f"seed{args.seed}.jsonl")
     os.makedirs(os.path.dirname(out), exist_ok=True)
+    if args.resume and os.path.exists(out):
+        done = set()
+        for line in open(out):
+            d = json.loads(line)
+            bad = any(rc not in (0, 1) for _, rc in d.get("ran", []))
+            if not bad and d["outcome"] != "suite-timeout":
+                done.add((d["file"], d["line"], d["kind"], d["desc"]))
+        sample = [m for m in sample
+                  if (m["file"], m["line"], m["kind"], m["desc"]) not in done]
+    i, k = map(int, args.shard.split("/"))
+    sample = sample[i::k]
     wt = f"/tmp/ms_{args.seed}_{i}"
     sh(f"git -C /repo worktree remove --force {wt}")
     r = sh(f"git -C /repo worktree add --detach {wt} HEAD")
